@@ -3,3 +3,6 @@ import TephraProofs.Canon
 import TephraProofs.Nav
 import TephraProofs.LexIter
 import TephraProofs.LexInv
+import TephraProofs.Lines
+import TephraProofs.Window
+import TephraProofs.WindowPrev
